@@ -174,9 +174,9 @@ private theorem framing_fields (r : Req) (body : Bytes) (hte : r.fields.filter (
       simp [hbe, hb, List.filter_append, hte', hcl', hc, h1, h2]
     | cons g gs => simp [hbe, hte', hcl', hc]
 
-private theorem toH1_clean (authOk : Bool) (b : Block) (r : Req) (body : Bytes)
+private theorem joined_clean (authOk : Bool) (b : Block) (r : Req)
     (hv : h2ValidReq b = true) (hp : parseH2Request authOk b = some r) (hval : validateRequest r false = true) :
-    ∀ f ∈ toH1Fields r body, fieldClean f := by
+    ∀ f ∈ joinCookies (insertHost r), fieldClean f := by
   have vv := valid_values b hv
   have pp := parse_parts authOk b r hp
   have tok := (validate_parts r hval).2.2.2.1
@@ -227,6 +227,12 @@ private theorem toH1_clean (authOk : Bool) (b : Block) (r : Req) (body : Bytes)
           obtain ⟨g, ⟨hg, _⟩, rfl⟩ := hv'
           exact (hins g hg).2
     · exact hins f hf
+  exact hjoin
+
+private theorem toH1_clean (authOk : Bool) (b : Block) (r : Req) (body : Bytes)
+    (hv : h2ValidReq b = true) (hp : parseH2Request authOk b = some r) (hval : validateRequest r false = true) :
+    ∀ f ∈ toH1Fields r body, fieldClean f := by
+  have hjoin := joined_clean authOk b r hv hp hval
   intro f hf
   unfold toH1Fields addFraming at hf
   split at hf
@@ -289,6 +295,85 @@ theorem h2_to_h1_single_message (authOk : Bool) (b : Block) (body : Bytes) (r : 
       simp [hg, readBack, (digits_item _ hdig).2]
   obtain ⟨fr, hfr, hb⟩ := key
   exact ref_parse_assembled r.method r.path (toH1Fields r body) body fr vp.2.1 vp.2.2.1 vp.1 hpath hclean hfr hb
+
+/-! ### the streamed conversion (flow.request.stream) -/
+
+/-- The full statement for the STREAMED conversion: whatever the DATA frames, the HTTP/1 bytes are one message with
+    the body that was sent.  It is FALSE for the code as it is (finding F-C06a) — see `_counterexample` — and holds
+    exactly where the head carries a content-length or there is no body (`_partial`). -/
+def h2_to_h1_streamed_single_message : Prop :=
+  ∀ (authOk : Bool) (b : Block) (chunks : List Bytes) (r : Req),
+    h2ValidReq b = true → parseH2Request authOk b = some r → validateRequest r false = true → ClLaw r chunks.flatten →
+    Ref.parse (assembleRequestHead r.method r.path sHttp11 (toH1FieldsStreamed r) ++ chunks.flatten)
+      = some [⟨r.method, r.path, sHttp11, (toH1FieldsStreamed r).map readBack, chunks.flatten⟩]
+
+/-- the decidable guard that excludes exactly the defect class F-C06a: a streamed body without content-length -/
+def streamedFramed (r : Req) (chunks : List Bytes) : Bool := hasName sCL r.fields || chunks.flatten.isEmpty
+
+theorem h2_to_h1_streamed_single_message_partial (authOk : Bool) (b : Block) (chunks : List Bytes) (r : Req)
+    (hv : h2ValidReq b = true) (hp : parseH2Request authOk b = some r)
+    (hval : validateRequest r false = true) (hcl : ClLaw r chunks.flatten)
+    (hg : streamedFramed r chunks = true) :
+    h2ToH1Streamed authOk b chunks
+      = some (assembleRequestHead r.method r.path sHttp11 (toH1FieldsStreamed r) ++ chunks.flatten) ∧
+    Ref.parse (assembleRequestHead r.method r.path sHttp11 (toH1FieldsStreamed r) ++ chunks.flatten)
+      = some [⟨r.method, r.path, sHttp11, (toH1FieldsStreamed r).map readBack, chunks.flatten⟩] := by
+  refine ⟨by simp [h2ToH1Streamed, hp, hval], ?_⟩
+  have vp := validate_parts r hval
+  have pp := parse_parts authOk b r hp
+  have hpath : r.path ≠ [] := by
+    simp only [h2ValidReq, Bool.and_eq_true] at hv
+    have := (List.all_eq_true.mp hv.2) r.path (by
+      simp only [valuesOf, List.mem_map, List.mem_filter]
+      exact ⟨(pPath, r.path), ⟨pp.2.1, by simp⟩, rfl⟩)
+    intro e; rw [e] at this; simp at this
+  have hclean : ∀ f ∈ toH1FieldsStreamed r, fieldClean f := joined_clean authOk b r hv hp hval
+  have hte : ((toH1FieldsStreamed r).map readBack).filter (nameIs sTE) = [] := by
+    rw [filter_readBack]
+    show ((joinCookies (insertHost r)).filter (nameIs sTE)).map readBack = []
+    rw [filter_joinCookies sTE (by decide), filter_insertHost sTE (by decide), vp.2.2.2.2.1]; rfl
+  have hclf : ((toH1FieldsStreamed r).map readBack).filter (nameIs sCL)
+      = (r.fields.filter (nameIs sCL)).map readBack := by
+    rw [filter_readBack]
+    show ((joinCookies (insertHost r)).filter (nameIs sCL)).map readBack = _
+    rw [filter_joinCookies sCL (by decide), filter_insertHost sCL (by decide)]
+  have key : ∃ fr, Ref.framing sHttp11 ((toH1FieldsStreamed r).map readBack) = some fr ∧
+      ((fr = .none ∧ chunks.flatten = []) ∨ fr = .cl chunks.flatten.length) := by
+    rcases vp.2.2.2.2.2 with hnone | ⟨g, hg', hstrict⟩
+    · -- no content-length: the guard says there is no body
+      have hb : chunks.flatten = [] := by
+        simp only [streamedFramed, Bool.or_eq_true] at hg
+        rcases hg with h1 | h1
+        · rw [hasName_iff, hnone] at h1; simp at h1
+        · simpa using h1
+      refine ⟨.none, ?_, Or.inl ⟨rfl, hb⟩⟩
+      apply framing_none _ hte
+      rw [hclf, hnone]; rfl
+    · refine ⟨.cl chunks.flatten.length, ?_, Or.inr rfl⟩
+      have hdig : ∀ c ∈ g.2, isDigit c = true := clStrict_digits g.2 hstrict
+      apply framing_cl _ g.2 chunks.flatten.length hte _ hdig (hcl g hg')
+      rw [hclf, hg']
+      simp [readBack, (digits_item _ hdig).2]
+  obtain ⟨fr, hfr, hb⟩ := key
+  exact ref_parse_assembled r.method r.path (toH1FieldsStreamed r) chunks.flatten fr vp.2.1 vp.2.2.1 vp.1 hpath hclean hfr hb
+
+/-- the witness of finding F-C06a: POST / with `:authority: a`, no content-length, streamed body
+    `GET /x HTTP/1.1 CRLF CRLF` — every hypothesis holds, yet the reference reader sees TWO requests -/
+def exStreamBlock : Block := [(pMethod, [80, 79, 83, 84]), (pScheme, sHttp), (pPath, [47]), (pAuthority, [97])]
+def exStreamBody : List Bytes := [[71, 69, 84, 32, 47, 120, 32], sHttp11 ++ crlf ++ crlf]
+
+theorem h2_to_h1_streamed_single_message_counterexample : ¬ h2_to_h1_streamed_single_message := by
+  intro h
+  have := h true exStreamBlock exStreamBody ⟨[80, 79, 83, 84], sHttp, [97], [47], []⟩
+    (by decide) (by decide) (by decide) (by intro g hg; simp at hg)
+  revert this
+  decide
+
+/-- what the next hop reads instead: the POST without a body, and the smuggled GET -/
+example : (h2ToH1Streamed true exStreamBlock exStreamBody).map Ref.parse =
+    some (some [⟨[80, 79, 83, 84], [47], sHttp11, [(sHost, [97])], []⟩,
+                ⟨[71, 69, 84], [47, 120], sHttp11, [], []⟩]) := by decide
+example : streamedFramed ⟨[80, 79, 83, 84], sHttp, [97], [47], []⟩ exStreamBody = false := by decide
 
 /-- Host: the client's own host field if it sent one, else the :authority, else none -/
 theorem h2_to_h1_host (r : Req) (body : Bytes) :
